@@ -18,10 +18,10 @@ pub fn policy_std<N: Nd>(nd: &mut N) {
     nd.assume(c < LIM);
     nd.note_num("current", c as u64);
     let r = StdPolicy.grow_to(c);
-    assert!(r == Some(doc_size(c, 8 * 1024 * 1024)), "C09 StdPolicy size");
+    vassert!(r == Some(doc_size(c, 8 * 1024 * 1024)), "C09 StdPolicy size");
     // the contract the readers rely on: strictly larger for every non-zero capacity
     if c > 0 {
-        assert!(r.unwrap() > c, "C09 StdPolicy grows");
+        vassert!(r.unwrap() > c, "C09 StdPolicy grows");
     }
     cover!(c < 8 * 1024 * 1024, "doubling branch");
     cover!(c >= 8 * 1024 * 1024, "linear branch");
@@ -34,7 +34,7 @@ pub fn policy_double_until<N: Nd>(nd: &mut N) {
     nd.note_num("current", c as u64);
     nd.note_num("threshold", t as u64);
     let r = DoubleUntil(t).grow_to(c);
-    assert!(r == Some(doc_size(c, t)), "C09 DoubleUntil size");
+    vassert!(r == Some(doc_size(c, t)), "C09 DoubleUntil size");
     cover!(c < t, "doubling branch");
     cover!(c >= t, "linear branch");
 }
@@ -50,9 +50,9 @@ pub fn policy_double_until_limited<N: Nd>(nd: &mut N) {
     let r = DoubleUntilLimited::new(t, l).grow_to(c);
     let want = doc_size(c, t);
     if want <= l {
-        assert!(r == Some(want), "C09 DoubleUntilLimited size within limit");
+        vassert!(r == Some(want), "C09 DoubleUntilLimited size within limit");
     } else {
-        assert!(r.is_none(), "C09 DoubleUntilLimited refuses beyond limit");
+        vassert!(r.is_none(), "C09 DoubleUntilLimited refuses beyond limit");
     }
     cover!(r.is_none(), "refusal");
     cover!(r.is_some() && c < t, "doubling within limit");
